@@ -19,6 +19,27 @@ CHECKS = {
  "C06": dict(cat="model_checking", tech="explicit enumeration of builder-call sequences (label programs) through the real Program builder, each assembled and run on all inputs against an abstract label machine",
    text="All label programs of the slot/pad/tail grammar (k<=3 quick, k<=4 thorough far-capable one-/two-way jumps; targets later jumps, returns, a load; distances from {0,1,2,253..257,300,511,512}; filler of loads or short jumps; shared/separate labels) are built with the real exported builder, assembled by the real Program.Assemble and executed on all 2^(k+1) inputs against the abstract label machine; plus policies with conditional bodies of every length up to ~600 instructions against the reference decision function.",
    note="Trusted: labelm.RunAbstract as meaning of a label program; programs outside the grammar (>=5 interacting far jumps, backward jumps, coinciding targets) are not covered.", ref="DESIGN.md C06"),
+ "C04": dict(cat="exploration", tech="bounded-exhaustive policy enumeration x every AUDIT_ARCH word x x32 numbers on the exact partition, interpreter vs reference",
+   text="Scopes S1, S3 (<=2 entries/conditions) and the long-program scope are run on the exact partition extended by every AUDIT_ARCH constant of linux/audit.h, 0, own+-1, own with bit 30/31 flipped, 0xFFFFFFFF, and by nr 0x3FFFFFFF/0x40000000/0x40000000|n/0x7FFFFFFF/0x80000000/0xFFFFFFFF in full product with argument cells that satisfy the rules; a sweep makes the architecture-jump distance take every value 240..270 on all architectures so both encodings and the switch at 255 are executed. Only foreign/x32 events are judged here.",
+   note="Trusted: first two lines of refsem.Decide; partition argument; vendored AUDIT_ARCH values.", ref="DESIGN.md C04"),
+ "C05": dict(cat="exploration", tech="exhaustive scope enumeration + port of the kernel verifier, port replayed against real seccomp(2)",
+   text="Every program returned with nil error by scopes S1, S3, S6, the C07 bases and a degenerate scope (all-empty groups, single names, whole tables, 1..1100 condition lists crossing 4096, lists of 1..60 conditions) is raw-encoded and checked by a line-by-line port of bpf_check_classic + check_load_and_stores + seccomp_check_filter and for a closed RET set; the port is validated against the real kernel on every distinct program shape met (thousands per run) and on ~58 rule programs, one per acceptance/rejection rule.",
+   note="Trusted: this kernel's verifier as ground truth for the port; RET K only (fragment check) so the syntactic return set is exact.", ref="DESIGN.md C05, 2.2"),
+ "C07": dict(cat="exploration", tech="defect injection at every position of valid base policies + acceptance obligations over exhaustive small scopes",
+   text="8 defect kinds in many spellings injected at every name slot / condition slot / ordered pair of 6 base policies on 4 architectures, plus pairs of defects and table-less architectures: each must yield (error, nil program, no panic). Every defect-free policy of the bases, varied valid forms and scopes S1/S3-small must be accepted; policies in neither set (empty condition list) must be compiled faithfully if accepted.",
+   note="Trusted: refsem.Valid as the statement's defect list. Arbitrary strings are represented by 10 spellings per slot, not all strings.", ref="DESIGN.md C07"),
+ "C08": dict(cat="model_checking", tech="reference model replayed on the real kernel: every policy of a probe scope loaded by the real LoadFilter in a fresh child, every partition cell issued as a real syscall",
+   text="Policies over six harmless probe syscalls (names-only 1-2 groups x 4 actions; single conditions 8 ops x 6 registers x boundary operands; AND/OR lists; two groups; kill_process behind conditions; with/without a >255-instruction allow group) are loaded by the real LoadFilter (flags 0/tsync, NNP on/off) in fresh children; every cell of the argument partition is issued with RawSyscall6 from the loader and a second thread and compared with the reference (EPERM / success / SIGSYS); the sock_fprog captured at the seam must equal the compiled program in length and content.",
+   note="Trusted: probe syscalls ignore arguments; host architecture only; seam hook sits before the syscall instruction (strace cross-check of flags in C10).", ref="DESIGN.md C08"),
+ "C09": dict(cat="model_checking", tech="explicit-state BFS over a Go model of the kernel attach rules, every transition replayed through the real LoadFilter on the real kernel with state comparison",
+   text="BFS (depth 3 quick / 4 thorough, 61 operations: Load on 3 threads x {valid A, valid B, invalid policy, oversize, bad flag} x tsync x nnp, Supported) from privileged and uid-65534 initial states, deduplicated on canonical model state; every transition is replayed (shortest history + op) in a fresh child; after every step per-thread NoNewPrivs/Seccomp/Seccomp_filters and probe answers are compared with the model (conformance) and LoadFilter's result with what the kernel shows (nil <=> in force everywhere requested; failed/invalid loads leave nothing; Supported changes nothing). Thorough adds all histories of length 2 without deduplication.",
+   note="Trusted: kmodel validated on every transition on this kernel (model_kernel_mismatches=0); runtime threads change only through thread-sync.", ref="DESIGN.md C09"),
+ "C10": dict(cat="model_checking", tech="enumeration of user-visible thread-phase vectors x flags x loader placement, each executed on the real kernel with per-thread observation after an atomic load-returned flag",
+   text="All phase vectors (spin, nanosleep, blocked read, blocked futex, spawning threads) of N<=2 (quick) / N<=3 (thorough) other threads plus N=8/64, x flags {0,tsync,log,tsync|log} x loader on main/non-main thread; after the load every thread (and three born later) probes and reads its status, /proc/self/task is scanned; all 32 single-bit flag words are compared at the seam and defined ones in strace's decoding of seccomp(2).",
+   note="Limit: kernel-internal interleavings of seccomp(2) cannot be scheduled from user space (kernel's guarantee); one execution per vector.", ref="DESIGN.md C10"),
+ "C11": dict(cat="model_checking", tech="schedule enumeration at the single prctl/seccomp seam: forced goroutine migration via the seam hook, in fresh privileged/unprivileged children",
+   text="{root, uid 65534} x NoNewPrivs x 4 flag words x loader goroutine placement x {stay, forced migration to another OS thread with/without idle-thread pool}; the migration manoeuvre is first shown to work on an unpinned control goroutine in the same child; observed: LoadFilter result, installing tid and its no_new_privs bit at the seam, per-thread bits/filters before and after.",
+   note="Limit: placements, not instruction-level preemption, are enumerated; if the loader is wired to its thread migration is impossible and the property holds by construction.", ref="DESIGN.md C11"),
 }
 
 ALL = ["C%02d" % i for i in range(1, 20)]
